@@ -355,4 +355,53 @@ def skeleton(v):
 
 
 def replay_spec(facts, r):
-    return None
+    """native replay of a refuted ORM obligation on the fixture schema (contracts/orm_native.py): the witness node, its
+    sanitised form and its form fitted to the fixture's field names are translated by the real visitor"""
+    from vc.pyval import to_py_source
+    from contracts.orm_native import ORM_NATIVE
+    w = r.get("witness") or {}
+    if "e" not in w:
+        return None
+    es = to_py_source(w["e"])
+    bkey = r.get("orm")
+    script = ORM_NATIVE + f"""
+bkey = {bkey!r}
+try:
+    w = {es}
+except Exception as ex:
+    w = None
+problems = []
+def idents(n, acc):
+    if isinstance(n, list):
+        for x in n: idents(x, acc)
+    elif isinstance(n, ast.Identifier):
+        acc.append(n.name)
+    elif dataclasses.is_dataclass(n):
+        for f in dataclasses.fields(n): idents(getattr(n, f.name), acc)
+    return acc
+def has(n, kinds):
+    if isinstance(n, list):
+        return any(has(x, kinds) for x in n)
+    if dataclasses.is_dataclass(n) and not isinstance(n, type):
+        return type(n).__name__ in kinds or any(has(getattr(n, f.name), kinds) for f in dataclasses.fields(n))
+    return False
+for i, tr in enumerate(variants(w) if w is not None else []):
+    kind, res, v = translate(bkey, tr)
+    shown = ref_render(tr)[:200] if i else repr(tr)[:200]
+    if kind == "foreign":
+        problems.append([shown, "foreign exception " + type(res).__name__ + ": " + str(res)[:120]])
+    elif kind == "nie" and not (bkey == "sa_core" and has(tr, ("Attribute", "CollectionLambda"))):
+        problems.append([shown, "NotImplementedError: " + str(res)[:120]])
+    elif kind == "ok" and res is None:
+        problems.append([shown, "the visitor returned None"])
+    elif kind == "ok" and i == 2:
+        c = compile_sql(bkey, tr)
+        if c and c[0] != "compile-error":
+            miss = [x for x in idents(tr, []) if x in FIELDS and x not in c[0]]
+            if miss:
+                problems.append([shown, "fields missing from the compiled SQL: " + ", ".join(miss) + " in " + c[0][-200:]])
+print(json.dumps({{'violates': bool(problems), 'problems': problems[:4]}}))
+"""
+    return {"native_script": script, "input_text": f"backend={bkey} e={es[:300]}",
+            "required": "a non-None translation naming every field of the filter, or a library exception "
+                        "(SQLAlchemy Core: NotImplementedError for paths and lambdas)"}
